@@ -150,7 +150,7 @@ func runKearly(r *rng, n int) {
 				if x.ok {
 					bok++
 				}
-			case <-time.After(3 * time.Second):
+			case <-time.After(8 * time.Second):
 				bhung++
 			}
 		}
@@ -161,7 +161,7 @@ func runKearly(r *rng, n int) {
 			if x.ok {
 				aok = 1
 			}
-		case <-time.After(3 * time.Second):
+		case <-time.After(8 * time.Second):
 			ahung = 1
 		}
 		ec.Close()
